@@ -2819,15 +2819,25 @@ sexp sexp_read_float_tail (sexp ctx, sexp in, double whole, int negp) {
   int c, c2;
   sexp exponent=SEXP_VOID;
   long double val=0.0, scale=10, e=0.0;
+  /* the decimal text, kept so that the final conversion can be done by */
+  /* strtod, which rounds correctly (the digit loop below does not) */
+  char text[1200];
+  int ntext, exactp=1;
   sexp_gc_var1(res);
   sexp_gc_preserve1(ctx, res);
+  ntext = snprintf(text, 400, "%.0f.", whole);
+  if (ntext < 0 || ntext >= 400) {ntext = 0; exactp = 0;}
   for (c=sexp_read_char(ctx, in); sexp_isdigit(c);
-       c=sexp_read_char(ctx, in), val*=10, scale*=10)
+       c=sexp_read_char(ctx, in), val*=10, scale*=10) {
     val += digit_value(c);
+    if (ntext < (int)sizeof(text) - 40) text[ntext++] = c;
+  }
 #if SEXP_USE_PLACEHOLDER_DIGITS
   for (; c==SEXP_PLACEHOLDER_DIGIT;
-       c=sexp_read_char(ctx, in), val*=10, scale*=10)
+       c=sexp_read_char(ctx, in), val*=10, scale*=10) {
     val += sexp_placeholder_digit_value(10);
+    exactp = 0;
+  }
 #endif
   val /= scale;
   val += whole;
@@ -2862,6 +2872,11 @@ sexp sexp_read_float_tail (sexp ctx, sexp in, double whole, int negp) {
   }
   if (e != 0.0)
     val = fabsl(e) > 320 ? exp(log(val) + e*M_LN10) : val * pow(10, e);
+  if (exactp && (exponent == SEXP_VOID || sexp_fixnump(exponent))) {
+    snprintf(text+ntext, 32, "e%ld", (long)e);
+    val = strtod(text, NULL);
+    if (negp) val *= -1;
+  }
 #if SEXP_USE_FLONUMS
   res = sexp_make_flonum(ctx, val);
 #else
